@@ -11,7 +11,7 @@ From Coq Require Import ZArith List Bool Sorted.
 From Low Require Import Lib.Bits Lib.BitSeq Model.BuilderOps Model.BitmapOf Spec.OfSpec
   Proofs.OfProofs Proofs.OfInspect Proofs.OfRoundTrip Proofs.BuilderProofs
   Model.BitmapMask Spec.MaskSpec Proofs.MaskProofs Model.BitmapFmt Spec.FmtSpec Proofs.FmtProofs
-  Model.Rank Model.BitmapNext Spec.OfQuerySpec Proofs.OfCompose Proofs.OfTotal Proofs.BuilderLen Model.BitmapOf32 Proofs.Of32.
+  Model.Rank Model.BitmapNext Spec.OfQuerySpec Proofs.OfCompose Proofs.OfTotal Proofs.BuilderLen Model.BitmapOf32 Proofs.Of32 Proofs.BuilderEqOf.
 Import ListNotations.
 Open Scope Z_scope.
 
@@ -176,6 +176,17 @@ Theorem C12_Builder_Extend_Of : forall n subs sizes,
        exists r', OfMany subs sizes = Some r' /\ ones (flat (Words b)) = ones (flat r')).
 Proof. exact Builder_Extend_Of. Qed.
 Print Assumptions C12_Builder_Extend_Of.
+
+(** the literal reading of "any sequence of Builder.Extend calls yields the bitmap Of would build": where OfMany is
+    applicable (ascending shifted concatenation), NewBuilder(n) followed by one Extend per segment leaves Words equal
+    WORD FOR WORD (same length, same words) to the slice OfMany returns, and Offset = the sum of the sizes *)
+Theorem C12_Builder_Extend_eq_OfMany : forall n subs sizes,
+  0 <= n -> ofmany_dom subs sizes = true ->
+  Forall (fun ps => sortedb ps = true /\ nonnegb ps = true) subs ->
+  exists b0 b, NewBuilder n = Some b0 /\ bfold b0 (extends subs sizes) = Some b /\
+    OfMany subs sizes = Some (Words b) /\ Offset b = total sizes.
+Proof. exact Builder_Extend_eq_OfMany. Qed.
+Print Assumptions C12_Builder_Extend_eq_OfMany.
 
 (** the exact number of words after any history (Extend grows to the words needed for max(Offset + size,
     Offset + last + 1 when last >= size), Set to the word of p, nothing ever shrinks), and with it Words itself:
